@@ -210,3 +210,13 @@ Print Assumptions C04_view_core_exact.
 Print Assumptions C04_view_of_ipos_exact.
 Print Assumptions C04_reachable_view_legal.
 Print Assumptions C04_legal_step_view.
+
+(* tie to the source: the constants the model copies from the Go source equal what the running engine reports
+   (gen/Tables_gen.v is regenerated on every run by `verifh dump-tables`) *)
+From FG.gen Require Import Tables_gen.
+From Coq Require Import ZArith NArith. (* consts *)
+From FG Require ConstTie.
+From FG Require PosImpl.
+Theorem C04_model_constants_dumped :
+  PosImpl.GamePhaseMax = c_game_phase_max /\ Z.of_nat PosImpl.MaxHistory = c_max_moves.
+Proof. exact ConstTie.posimpl_constants_dumped. Qed.
